@@ -133,3 +133,12 @@ func Diff(op wire.Op, e Expect, r wire.Reply) (clause, detail string) {
 	}
 	return "", ""
 }
+
+// modelWith returns a reference map that holds the fault harness's key or not.
+func modelWith(had bool) *refmodel.Model {
+	m := refmodel.New(bubbleEpoch)
+	if had {
+		m.Store("set", fKey, fOld, fOldF, 0)
+	}
+	return m
+}
